@@ -7,6 +7,9 @@
 //	matrix   QueryRangeService.QueryRange, matrix branch    } the exported service methods; the rows come from a
 //	vector   QueryRangeService.QueryInstant, vector branch  } scripted shared.RequestProcessor handed out by a
 //	tail     first frame of QueryRangeService.Tail          } registered LogQL planner plugin (no hook)
+//	prommatrix / promvector / promscalar   writeResponse of the Prometheus query controller (hook); batch = series,
+//	                   entry = point; the series labels (a slice, order fixed) are in Blbls
+//	promerror          PromError(500, items[0])
 //	tags / tagvalues   TempoController.Tags / Values over a fake ITempoService
 //	labels / series    QueryLabelsService.GenericLabelReq / Series over scripted database/sql rows
 //
@@ -30,6 +33,9 @@ import (
 	"time"
 	"unicode/utf8"
 
+	jsoniter "github.com/json-iterator/go"
+	"github.com/prometheus/prometheus/model/labels"
+	"github.com/prometheus/prometheus/promql"
 	controllerv1 "github.com/metrico/qryn/reader/controller"
 	"github.com/metrico/qryn/reader/logql/logql_parser"
 	"github.com/metrico/qryn/reader/logql/logql_transpiler_v2/shared"
@@ -56,6 +62,7 @@ type Case struct {
 	Class   string    `json:"class"`
 	Batches [][]Entry `json:"batches"`
 	Items   []string  `json:"items"` // list kinds: hex strings (tag names, label values, stored label documents)
+	Blbls   [][][2]string `json:"blbls"` // Prometheus kinds: label slice of every batch (= series), hex
 	Order   []string  `json:"order"` // vector: fingerprints in the order of the result array (read back through the "id" label)
 	Out     string    `json:"out"`   // hex of the concatenated chunks
 	GoValid bool      `json:"valid"` // encoding/json.Valid(out)
@@ -520,6 +527,201 @@ func goVector(c *Case, body string) string {
 		v, ok2 := r.Value[1].(string)
 		if !ok1 || !ok2 || n.String() != strconv.FormatInt(e.Ts/1000000000, 10) || v != e.Valt {
 			return "diff:value of series " + e.Fp
+		}
+	}
+	return "ok"
+}
+
+// ---------------------------------------------------------------------------------- Prometheus kinds
+
+var promKinds = map[string]bool{"prommatrix": true, "promvector": true, "promscalar": true, "promerror": true}
+
+func genPromCase(r *rand.Rand, id int, kind string) Case {
+	c := Case{ID: id, Kind: kind}
+	if kind == "promerror" {
+		c.Items = []string{hx.Hex(genBytes(r))}
+		c.Class = "msg"
+		return c
+	}
+	nser := 1
+	if kind != "promscalar" {
+		nser = []int{0, 1, 1, 2, 3, 5}[r.Intn(6)]
+	}
+	c.Class = fmt.Sprintf("%d-series", nser)
+	for i := 0; i < nser; i++ {
+		var ls [][2]string
+		for k := r.Intn(4); k > 0; k-- { // a slice: order as generated, duplicate names possible
+			ls = append(ls, [2]string{hx.Hex(genKey(r)), hx.Hex(genBytes(r))})
+		}
+		np := 1
+		if kind == "prommatrix" {
+			np = []int{0, 1, 2, 4}[r.Intn(4)]
+		}
+		var b []Entry
+		for k := 0; k < np; k++ {
+			t := genTs(r) / 1000000 // milliseconds
+			if r.Intn(6) == 0 {
+				t = int64(r.Intn(3)) - 1
+			}
+			b = append(b, Entry{Fp: "0", Ts: t, Val: strconv.FormatFloat(genVal(r), 'g', -1, 64)})
+		}
+		c.Batches = append(c.Batches, b)
+		c.Blbls = append(c.Blbls, ls)
+	}
+	return c
+}
+
+func runProm(c *Case) string {
+	w := httptest.NewRecorder()
+	if c.Kind == "promerror" {
+		controllerv1.PromError(500, hx.UnHex(c.Items[0]), w)
+		return w.Body.String()
+	}
+	lbls := func(i int) labels.Labels {
+		var l labels.Labels
+		for _, kv := range c.Blbls[i] {
+			l = append(l, labels.Label{Name: hx.UnHex(kv[0]), Value: hx.UnHex(kv[1])})
+		}
+		return l
+	}
+	js := jsoniter.ConfigFastest
+	var res promql.Result
+	switch c.Kind {
+	case "prommatrix":
+		m := promql.Matrix{}
+		for i, b := range c.Batches {
+			s := promql.Series{Metric: lbls(i)}
+			for _, e := range b {
+				v, _ := strconv.ParseFloat(e.Val, 64)
+				s.Points = append(s.Points, promql.Point{T: e.Ts, V: v})
+			}
+			m = append(m, s)
+		}
+		res.Value = m
+	case "promvector":
+		vv := promql.Vector{}
+		for i, b := range c.Batches {
+			v, _ := strconv.ParseFloat(b[0].Val, 64)
+			vv = append(vv, promql.Sample{Point: promql.Point{T: b[0].Ts, V: v}, Metric: lbls(i)})
+		}
+		res.Value = vv
+	case "promscalar":
+		v, _ := strconv.ParseFloat(c.Batches[0][0].Val, 64)
+		res.Value = promql.Scalar{T: c.Batches[0][0].Ts, V: v}
+	}
+	// the number texts the model takes as given
+	for bi := range c.Batches {
+		for ei := range c.Batches[bi] {
+			e := &c.Batches[bi][ei]
+			v, _ := strconv.ParseFloat(e.Val, 64)
+			if c.Kind == "promscalar" {
+				e.Tsf = fmt.Sprintf("%f", float64(e.Ts)/1000)
+				e.Valt = fmt.Sprintf("%f", v)
+			} else {
+				st := js.BorrowStream(nil)
+				st.WriteFloat64(float64(e.Ts) / 1000)
+				e.Tsf = string(st.Buffer())
+				js.ReturnStream(st)
+				e.Valt = strconv.FormatFloat(v, 'f', -1, 64)
+			}
+			if back, err := strconv.ParseFloat(e.Valt, 64); c.Kind != "promscalar" && (err != nil || (back != v && !(math.IsNaN(back) && math.IsNaN(v)))) {
+				c.NumLoss = fmt.Sprintf("value %v printed as %s", v, e.Valt)
+			}
+			if sec, err := strconv.ParseFloat(e.Tsf, 64); err != nil || int64(math.Round(sec*1000)) != e.Ts {
+				c.NumLoss = fmt.Sprintf("timestamp %d ms printed as %s", e.Ts, e.Tsf)
+			}
+		}
+	}
+	if err := controllerv1.VerifC15WriteResponse(&res, w); err != nil {
+		panic(err)
+	}
+	return w.Body.String()
+}
+
+// goProm: encoding/json parse compared with the series
+func goProm(c *Case, body string) string {
+	if c.Kind == "promerror" {
+		var v struct{ Status, ErrorType, Error string }
+		if err := json.Unmarshal([]byte(body), &v); err != nil {
+			return "diff:decode: " + err.Error()
+		}
+		msg := hx.UnHex(c.Items[0])
+		if !utf8.ValidString(msg) {
+			return "skip:not utf8"
+		}
+		if v.Status != "error" || v.ErrorType != "error" || v.Error != msg {
+			return "diff:fields"
+		}
+		return "ok"
+	}
+	var resp struct {
+		Status string `json:"status"`
+		Data   struct {
+			ResultType string            `json:"resultType"`
+			Result     []json.RawMessage `json:"result"`
+		} `json:"data"`
+	}
+	if err := json.Unmarshal([]byte(body), &resp); err != nil {
+		return "diff:decode: " + err.Error()
+	}
+	want := strings.TrimPrefix(c.Kind, "prom")
+	if resp.Status != "success" || resp.Data.ResultType != want {
+		return "diff:envelope"
+	}
+	if c.Kind == "promscalar" {
+		if len(resp.Data.Result) != 2 || string(resp.Data.Result[0]) != c.Batches[0][0].Tsf || string(resp.Data.Result[1]) != `"`+c.Batches[0][0].Valt+`"` {
+			return "diff:scalar"
+		}
+		return "ok"
+	}
+	if len(resp.Data.Result) != len(c.Batches) {
+		return fmt.Sprintf("diff:%d series, want %d", len(resp.Data.Result), len(c.Batches))
+	}
+	for i, raw := range resp.Data.Result {
+		var sr struct {
+			Metric map[string]string `json:"metric"`
+			Values [][]interface{}   `json:"values"`
+			Value  []interface{}     `json:"value"`
+		}
+		dec := json.NewDecoder(strings.NewReader(string(raw)))
+		dec.UseNumber()
+		if err := dec.Decode(&sr); err != nil {
+			return "diff:decode series: " + err.Error()
+		}
+		vals := sr.Values
+		if c.Kind == "promvector" {
+			vals = [][]interface{}{sr.Value}
+		}
+		if len(vals) != len(c.Batches[i]) {
+			return fmt.Sprintf("diff:series %d has %d points", i, len(vals))
+		}
+		for k, e := range c.Batches[i] {
+			if len(vals[k]) != 2 {
+				return "diff:point shape"
+			}
+			n, ok1 := vals[k][0].(json.Number)
+			v, ok2 := vals[k][1].(string)
+			if !ok1 || !ok2 || n.String() != e.Tsf || v != e.Valt {
+				return fmt.Sprintf("diff:point %d of series %d", k, i)
+			}
+		}
+		lastOf := map[string]string{} // duplicate names: a JSON object reader keeps the last
+		utf := true
+		for _, kv := range c.Blbls[i] {
+			k, v := hx.UnHex(kv[0]), hx.UnHex(kv[1])
+			utf = utf && utf8.ValidString(k) && utf8.ValidString(v)
+			lastOf[k] = v
+		}
+		if !utf {
+			continue
+		}
+		if len(lastOf) != len(sr.Metric) {
+			return fmt.Sprintf("diff:labels of series %d", i)
+		}
+		for k, v := range lastOf {
+			if sr.Metric[k] != v {
+				return fmt.Sprintf("diff:label %q of series %d", k, i)
+			}
 		}
 	}
 	return "ok"
@@ -1055,6 +1257,15 @@ func fillFloatTexts(c *Case) {
 }
 
 func run(c *Case) {
+	if promKinds[c.Kind] {
+		var body string
+		c.NumLoss = ""
+		c.Panic = hx.Catch(func() { body = runProm(c) })
+		c.Out = hx.Hex(body)
+		c.GoValid = json.Valid([]byte(body))
+		c.GoRows = goProm(c, body)
+		return
+	}
 	if listKinds[c.Kind] {
 		var body string
 		c.Panic = hx.Catch(func() { body = runList(c) })
@@ -1149,13 +1360,16 @@ func main() {
 		return
 	}
 	r := hx.Rand(f.Seed)
-	mix := []string{"streams", "matrix", "tags", "streams", "vector", "labels", "streams", "tail", "series", "matrix",
-		"streams", "tagvalues", "matrix", "vector", "labels", "streams", "tail", "series", "tags", "tagvalues"}
+	mix := []string{"streams", "matrix", "tags", "prommatrix", "vector", "labels", "streams", "tail", "series", "promvector",
+		"streams", "tagvalues", "matrix", "vector", "labels", "prommatrix", "tail", "series", "promscalar", "promerror",
+		"streams", "matrix", "tags", "prommatrix", "streams", "tagvalues", "streams", "tail", "promvector", "matrix"}
 	cases := make([]Case, f.N)
 	var waits []func()
 	for i := 0; i < f.N; i++ {
 		kind := mix[i%len(mix)]
-		if listKinds[kind] {
+		if promKinds[kind] {
+			cases[i] = genPromCase(r, i, kind)
+		} else if listKinds[kind] {
 			cases[i] = genListCase(r, i, kind)
 		} else {
 			cases[i] = genCase(r, i, kind)
